@@ -58,7 +58,8 @@ type tapRec struct {
 func pHash(b []byte) string { return fmt.Sprintf("%d:%x", len(b), sha1.Sum(b)) }
 
 func nodeNames(r *Rng, n int) []string {
-	cands := []string{"a", "Node-B", "node-b", "nœud-3", "n 4", strings.Repeat("long-node-name-", 7), "B", "x.y-z_0", "λ"}
+	cands := []string{"a", "Node-B", "node-b", "nœud-3", "n 4", strings.Repeat("long-node-name-", 7), "B", "x.y-z_0", "λ",
+		"fd00::5", "a:b", ":x", "x:", "::", "n/0", "u@h", "p%41"} // separators of address formatting
 	// shuffle deterministically
 	for i := len(cands) - 1; i > 0; i-- {
 		j := r.Intn(i + 1)
